@@ -82,6 +82,7 @@ def arrays_over(sym, indices, charges="all", sparsity="le1", orders=("sorted",),
     """all (charge, stored sectors in order[, pending signs]) variants over fixed index descriptors.
     ``label`` is used as oddpos when the charge is odd (fermionic descriptors only)."""
     ferm = kw.get("ferm", False)
+    nferm = 0
     for charge in pick_charges(sym, indices, charges):
         valid = G.valid_sectors(sym, tables_of(indices), duals_of(indices), charge)
         odd = G.parity(sym, charge) == 1
@@ -91,7 +92,13 @@ def arrays_over(sym, indices, charges="all", sparsity="le1", orders=("sorted",),
                     yield arrd(sym, indices, charge, ordered, **kw)
                     continue
                 for ph in phase_patterns(stored, phases):
-                    yield arrd(sym, indices, charge, ordered, phases=ph, oddpos=(label if odd else None), **kw)
+                    d = arrd(sym, indices, charge, ordered, phases=ph, oddpos=(label if odd else None), **kw)
+                    nferm += 1
+                    if nferm % 3 == 0 and len(ph) < len(ordered):
+                        # representation of the sign table: trivial signs need not be stored, but may be - every third
+                        # fermionic descriptor stores an explicit +1 for each block without a pending sign
+                        d["explicit_plus"] = True
+                    yield d
 
 
 def index_tuples(sym, n, menu, size="a", duals="all", axis0=0):
